@@ -179,8 +179,13 @@ func H_C16_star() {
 
 // H_C16_topologies: AllTopologies returns each labelled binary topology exactly once.
 func H_C16_topologies() {
-	n := sxParam("n", 5)
 	rooted := sxChoose("rooted", 2) == 1
+	// every size from the documented minimum (2 rooted, 3 unrooted) up to n
+	min := 3
+	if rooted {
+		min = 2
+	}
+	n := min + sxChoose("size", sxParam("n", 5)-min+1)
 	names := make([]string, n)
 	for i := range names {
 		names[i] = tipName(i)
